@@ -30,8 +30,10 @@ type G struct {
 	WildFloats bool
 	MaxList    int
 
-	names []string
-	seen  map[string]bool
+	names   []string
+	seen    map[string]bool
+	uidPool []int64
+	poolSet bool
 }
 
 // NewG returns a random-mode generator.
@@ -123,6 +125,30 @@ func (g *G) ID() int64 {
 	return g.R.Int64Range(1, 12_000_000_000)
 }
 
+// UID returns a user id. Containers and documents are generated with a small pool of user
+// ids (initPool), so that several objects of one stream carry the same non-zero uid while their
+// user names are drawn independently: users can rename themselves, uid -> display name is not a
+// function in history files, diffs or any osm.OSM value.
+func (g *G) UID() osm.UserID {
+	if len(g.uidPool) > 0 && g.R.Chance(0.75) {
+		return osm.UserID(g.uidPool[g.R.Intn(len(g.uidPool))])
+	}
+	return osm.UserID(g.ID())
+}
+
+// initPool decides once per generator whether user ids come from a small pool.
+func (g *G) initPool() {
+	if g.Simple || g.poolSet {
+		return
+	}
+	g.poolSet = true
+	if g.R.Chance(0.6) {
+		for i, n := 0, g.R.Range(1, 3); i < n; i++ {
+			g.uidPool = append(g.uidPool, g.R.Int64Range(1, 9_999_999))
+		}
+	}
+}
+
 // Int returns a non-zero int (versions, counts).
 func (g *G) Int() int {
 	if g.Simple {
@@ -150,6 +176,10 @@ func (g *G) Coord(lim int) float64 {
 				break
 			}
 		}
+	case g.R.Chance(0.2):
+		// an arbitrary double of the range: its shortest decimal text has 15-17 significant
+		// digits (what a writer that prints float64 coordinates produces)
+		v = (g.R.Float64()*2 - 1) * float64(lim)
 	case g.R.Chance(0.1):
 		v = float64(g.R.Int64Range(int64(-lim)*1_000_000_000, int64(lim)*1_000_000_000)) / 1e9
 	case g.R.Chance(0.05):
@@ -264,7 +294,7 @@ func (g *G) Node() *osm.Node {
 		n.User = g.Str()
 	}
 	if g.Has("node.uid") {
-		n.UserID = osm.UserID(g.ID())
+		n.UserID = g.UID()
 	}
 	n.Visible = g.Has("node.visible")
 	if g.Has("node.version") {
@@ -341,7 +371,7 @@ func (g *G) Way() *osm.Way {
 		w.User = g.Str()
 	}
 	if g.Has("way.uid") {
-		w.UserID = osm.UserID(g.ID())
+		w.UserID = g.UID()
 	}
 	w.Visible = g.Has("way.visible")
 	if g.Has("way.version") {
@@ -378,7 +408,7 @@ func (g *G) Relation() *osm.Relation {
 		r.User = g.Str()
 	}
 	if g.Has("relation.uid") {
-		r.UserID = osm.UserID(g.ID())
+		r.UserID = g.UID()
 	}
 	r.Visible = g.Has("relation.visible")
 	if g.Has("relation.version") {
@@ -438,7 +468,7 @@ func (g *G) Changeset() *osm.Changeset {
 		c.User = g.Str()
 	}
 	if g.Has("changeset.uid") {
-		c.UserID = osm.UserID(g.ID())
+		c.UserID = g.UID()
 	}
 	if g.Has("changeset.created_at") {
 		c.CreatedAt = g.Time()
@@ -477,7 +507,7 @@ func (g *G) Changeset() *osm.Changeset {
 				cm.User = g.Str()
 			}
 			if g.Has("changeset.discussion.uid") {
-				cm.UserID = osm.UserID(g.ID())
+				cm.UserID = g.UID()
 			}
 			if g.Has("changeset.discussion.date") {
 				cm.Timestamp = g.Time()
@@ -540,7 +570,7 @@ func (g *G) Note() *osm.Note {
 				c.Date = osm.Date{Time: g.SecTime()}
 			}
 			if g.Has("note.comments.uid") {
-				c.UserID = osm.UserID(g.ID())
+				c.UserID = g.UID()
 				if c.UserID == 0 {
 					c.UserID = 7
 				}
@@ -713,6 +743,7 @@ func (g *G) body(prefix string, o *osm.OSM, others bool) {
 
 // OSM generates an osm.OSM value.
 func (g *G) OSM() *osm.OSM {
+	g.initPool()
 	h := g.header("osm")
 	o := &osm.OSM{Version: h.Version, Generator: h.Generator, Copyright: h.Copyright, Attribution: h.Attribution, License: h.License}
 	g.body("osm", o, true)
@@ -722,6 +753,7 @@ func (g *G) OSM() *osm.OSM {
 // Change generates an osm.Change value. The blocks carry no header attributes of their own
 // (the osmChange format has none on create/modify/delete).
 func (g *G) Change() *osm.Change {
+	g.initPool()
 	h := g.header("change")
 	c := &osm.Change{Version: h.Version, Generator: h.Generator, Copyright: h.Copyright, Attribution: h.Attribution, License: h.License}
 	for _, a := range []string{"create", "modify", "delete"} {
@@ -817,6 +849,7 @@ func (g *G) DiffItems() []DiffItem {
 // changesets, notes and users (features diff.actions.container.*); like osmChange blocks they
 // carry no header attributes of their own.
 func (g *G) Diff() *osm.Diff {
+	g.initPool()
 	d := &Doc{Kind: "diff", Items: g.DiffItems()}
 	df := d.ExpectDiff()
 	for i := range df.Actions {
@@ -875,6 +908,7 @@ func (g *G) Value(kind string) any {
 // order: kinds interleaved below <osm>, repeated and interleaved action blocks in an
 // osmChange, actions and changesets mixed in a diff.
 func (g *G) Doc(kind string, maxObjs int) *Doc {
+	g.initPool()
 	d := &Doc{Kind: kind}
 	switch kind {
 	case "osm":
